@@ -122,7 +122,13 @@ def main(argv=None):
         futs = [(c[0], ex.submit(run_worker, pid, tier, c[0], c[1])) for c in cases]
         cfuts = [(cn, case, ex.submit(run_worker, pid, tier, case, tmo.get(case, 300), cn)) for cn, case in canary_jobs]
         for name, f in futs:
-            results.append(f.result())
+            r_ = f.result()
+            results.append(r_)
+            if os.environ.get("SYMX_PROGRESS"):
+                bad_ = [o["label"] + ":" + o["verdict"] for o in r_.get("obligations", []) if o["verdict"] != "unsat"]
+                print(f"  [{time.time() - t0:6.0f}s] {name}: ok={r_.get('ok')} wall={r_.get('worker_wall_s')} "
+                      f"obl={len(r_.get('obligations', []))} bad={bad_[:3]} err={str(r_.get('error'))[:200]} {r_.get('errors', [])[:1]}",
+                      file=sys.stderr, flush=True)
         for cn, case, f in cfuts:
             canary_results.setdefault(cn, []).append((case, f.result()))
 
@@ -138,9 +144,11 @@ def main(argv=None):
         for o in r["obligations"]:
             if o["verdict"] == "unknown":
                 inconclusive.append(f"{r['case']}: obligation '{o['label']}' unknown after {o['time_s']}s")
-        for tw in r.get("reach", []):
-            if tw["verdict"] != "sat":
-                inconclusive.append(f"{r['case']}: reachability twin '{tw['label']}' is {tw['verdict']} (vacuous?)")
+        tws = r.get("reach", [])
+        solver_dep = [o for o in r["obligations"] if o["verdict"] == "unsat" and not o.get("syntactic")]
+        if tws and solver_dep and not any(tw["verdict"] == "sat" for tw in tws):
+            inconclusive.append(f"{r['case']}: no path has a satisfiable reachability twin "
+                                f"({[tw['verdict'] for tw in tws][:5]}): the case may be vacuous")
         candidates.extend(r["candidates"])
 
     # ---- replay candidates on the real, unstubbed code
